@@ -2,7 +2,7 @@ CONSTANTS MaxDepth = 2
           MaxRowsC = 8
           LawDepth = 2
 INIT Init
-NEXT BNext
+NEXT Next
 VIEW View
 CONSTRAINT Bound
 INVARIANT TypeOK
